@@ -206,13 +206,27 @@ pub fn run_scene<F: Function + MathFunction + RenderHints + Clone>(
                 threads: pool_idx.map(pool),
                 cancel,
             };
+            let threads = pool_idx.map(pool);
             fidget_raster::pixel::render(bound, &cfg, &ec).map(|img| {
-                img.iter()
+                let mut out: Canon = img
+                    .iter()
                     .map(|p| match p.unpack() {
                         DistancePixel::Value(v) => v.to_bits() as u64,
                         DistancePixel::Fill { depth, inside } => (1u64 << 40) | ((depth as u64) << 1) | inside as u64,
                     })
-                    .collect()
+                    .collect();
+                // the row-parallel post-processing passes, with the same pool
+                use fidget_raster::effects;
+                for bmp in [
+                    effects::to_rgba_bitmap(img.clone(), false, threads),
+                    effects::to_rgba_bitmap(img.clone(), true, threads),
+                    effects::to_debug_bitmap(img.clone(), threads),
+                    effects::to_rgba_distance(img.clone(), threads),
+                ] {
+                    out.push(0xEFFEC7);
+                    out.extend(bmp.iter().map(|p| u32::from_le_bytes(*p) as u64));
+                }
+                out
             })
         }
         Kind::Image3 => {
@@ -224,10 +238,29 @@ pub fn run_scene<F: Function + MathFunction + RenderHints + Clone>(
                 threads: pool_idx.map(pool),
                 cancel,
             };
+            let threads = pool_idx.map(pool);
             fidget_raster::voxel::render(bound, &cfg, &ec).map(|img| {
-                img.iter()
-                    .flat_map(|p| [p.depth as u64, hash_u64s(&[p.normal[0].to_bits() as u64, p.normal[1].to_bits() as u64, p.normal[2].to_bits() as u64])])
-                    .collect()
+                let px = |p: &fidget_raster::voxel::GeometryPixel| {
+                    [p.depth as u64, hash_u64s(&[p.normal[0].to_bits() as u64, p.normal[1].to_bits() as u64, p.normal[2].to_bits() as u64])]
+                };
+                let mut out: Canon = img.iter().flat_map(px).collect();
+                // the row-parallel post-processing passes, with the same pool
+                // (the SSAO kernel is drawn from the thread RNG, so only the
+                // deterministic passes are compared; blur_ssao gets a
+                // deterministic occlusion image made from the depths)
+                use fidget_raster::effects;
+                let den = effects::denoise_normals(&img, threads);
+                out.push(0xEFFEC7);
+                out.extend(den.iter().flat_map(px));
+                let shaded = effects::apply_shading(&img, false, threads);
+                out.push(0xEFFEC7);
+                out.extend(shaded.iter().map(|p| u32::from_le_bytes([p[0], p[1], p[2], 0]) as u64));
+                let occ: Vec<f32> = img.iter().map(|p| if p.depth == 0 { f32::NAN } else { (p.depth % 7) as f32 / 7.0 }).collect();
+                let occ = fidget_raster::Image::<f32>::build(occ, ImageSize::new(sc.w, sc.h)).expect("pixel count");
+                let blurred = effects::blur_ssao(&occ, threads);
+                out.push(0xEFFEC7);
+                out.extend(blurred.iter().map(|v| v.to_bits() as u64));
+                out
             })
         }
         Kind::Mesh => {
